@@ -255,7 +255,9 @@ def fam_accessors(tier: str, rng: random.Random) -> Iterator[dict]:
     """Properties with and without a setter along hierarchies: every accessor inherits contracts on its own - a setter
     that the ancestors do not provide may declare preconditions; a re-declared property without a setter has none."""
     opts = [None, ((0, 0, 0), None), ((0, 1, 0), None), ((0, 0, 0), (0, 0, 0)), ((0, 0, 0), (1, 0, 0)),
-            ((0, 1, 0), (1, 0, 0)), ((1, 0, 0), (0, 1, 0)), ((0, 0, 0), (0, 1, 0))]
+            ((0, 1, 0), (1, 0, 0)), ((1, 0, 0), (0, 1, 0)), ((0, 0, 0), (0, 1, 0)),
+            # postconditions with snapshots on the getter / on the setter (inherited by accessors without own contracts)
+            ((0, 1, 1), None), ((0, 1, 1), (0, 0, 0)), ((0, 0, 0), (0, 1, 1))]
     for shape in ("chain2", "chain3", "siblings", "twobases"):
         n = len(SHAPES[shape])
         mros = mro_of(SHAPES[shape])
@@ -331,6 +333,31 @@ def fam_late_inv(tier: str, rng: random.Random) -> Iterator[dict]:
                         h["con"].append({"role": "inv", "on": rng.choice(ons), "name": 0})
                         h["posthoc"].append({"k": k, "name": "f", "d": {"d": "invariant", "c": len(h["con"])}})
                     yield h
+
+
+def fam_shared_decos(tier: str, rng: random.Random) -> Iterator[dict]:
+    """The same decorator objects (positive = icontract.require(is_positive)) are applied to the method of the base and
+    to the overrides: an own group that is a proper subset of the inherited group still WEAKENS the precondition;
+    an own group that lists the very same contracts is that group; a shared postcondition is one postcondition."""
+    pre_sets = [[], [1], [2], [1, 2], [2, 1], [3], [1, 3]]
+    post_sets = [[], [4]]
+    for shape in ("chain2", "chain3", "twobases"):
+        n = len(SHAPES[shape])
+        mros = mro_of(SHAPES[shape])
+        combos = list(itertools.product(pre_sets, repeat=n))
+        if tier == "quick" and len(combos) > 150:
+            combos = rng.sample(combos, 150)
+        for combo in combos:
+            for posts in itertools.product(post_sets, repeat=n) if n == 2 else [tuple(rng.choice(post_sets) for _ in range(n))]:
+                con = [{"role": "pre", "on": "CALL", "name": 0}] * 3 + [{"role": "post", "on": "CALL", "name": 0}]
+                cls = []
+                for k, bases in enumerate(SHAPES[shape], 1):
+                    decos = [{"d": "ensure", "c": c} for c in posts[k - 1]] + [{"d": "require", "c": c} for c in combo[k - 1]]
+                    members = [{"name": "f", "kind": "fn", "decos": decos}]
+                    cls.append({"bases": list(bases), "mro": mros[k - 1], "dbc": True, "members": members, "invs": [],
+                                "mod": "app.models"})
+                yield {"hid": 0, "tag": "shared-decos-" + shape, "names": ["f", "g"], "con": [dict(c) for c in con],
+                       "cls": cls, "posthoc": []}
 
 
 def fam_foreign_hier(tier: str, rng: random.Random) -> Iterator[dict]:
